@@ -72,3 +72,41 @@ package render
 //@   ensures [snaps-to-corner-2] abs(x - k2) < epsilon && abs(x - k1) >= epsilon ==> r == p2
 //@   ensures [same-vertex-from-either-cell] r == msInterpolate(p2, p1, k2, k1, x)
 //@ end
+
+//-----------------------------------------------------------------------------
+// C14: the STL loader is total. Safety contracts: every index, slice bound,
+// nil dereference, make size and explicit panic becomes an obligation; the
+// file system, bufio, strings, strconv and encoding/binary are external
+// (arbitrary results, error or not).
+
+//@ func parseFloats
+//@   property C14
+//@   opt safety
+//@   modular
+//@   invariant 0 rangeindex >= -1 && rangeindex < len(in) && len(out) == len(in)
+//@   ensures [length-preserved] isnil(err) ==> len(r) == len(in)
+//@ end
+
+//@ func loadSTLAscii
+//@   property C14
+//@   opt safety
+//@   modular
+//@   invariant 0 len(v) >= 0
+//@   invariant 1 i >= 0 && i % 3 == 0
+//@   ensures [returns] true
+//@ end
+
+//@ func loadSTLBinary
+//@   property C14
+//@   opt safety
+//@   modular
+//@   invariant 0 rangeindex >= -1 && rangeindex < len(mesh)
+//@   ensures [returns] true
+//@ end
+
+//@ func LoadSTL
+//@   property C14
+//@   opt safety
+//@   callassert loadSTLBinary size == header.Count*50 + 84
+//@   ensures [returns] true
+//@ end
